@@ -57,6 +57,7 @@ theorem power_eq_textbook (P : Prims α) (cfg : RatioCfg α) (v n d : α)
     (hse : 0 ≤ seSq (optsOf cfg) v (n / (1 + cfg.ratio)) v (n * cfg.ratio / (1 + cfg.ratio))) :
     RatioOfMeans.power_from_stats P cfg v n d = power P (powerOptsOf cfg) v n d := by
   unfold RatioOfMeans.power_from_stats power nullDist altDist powerSe nControl nTreatment
+  dsimp only          -- local definitions of the source (`let`) are transparent: the statement is about values
   rw [scale_and_distr_alt_eq P cfg _ _ _ _ _ hse]
   simp only [seSq_opts, degF_opts, refDist_opts]
   rfl
